@@ -34,6 +34,16 @@ pub enum Cmd {
     Raw(String),
 }
 
+/// Some(ms) for a go whose only limit is `movetime ms`
+fn pure_movetime(spec: &str) -> Option<u64> {
+    let t: Vec<&str> = spec.split_whitespace().collect();
+    if t.len() == 2 && t[0] == "movetime" {
+        t[1].parse().ok()
+    } else {
+        None
+    }
+}
+
 pub fn cmd_text(c: &Cmd) -> String {
     match c {
         Cmd::Uci => "uci".into(),
@@ -108,6 +118,9 @@ struct Go {
     pos: Pos,
     answered: bool,
     spec: String,
+    sent: std::time::Instant,
+    /// a terminating command (stop/go/position/ucinewgame/quit) was sent after this go
+    terminated: bool,
 }
 
 pub struct Outcome {
@@ -118,6 +131,7 @@ pub struct Outcome {
     pub book_answers: u64,
     pub readyok_while_searching: u64,
     pub state_checks: u64,
+    pub movetime_lower_bounds: u64,
     pub log_tail: Vec<String>,
     /// (score line, bestmove) of every answered go, in order (used by C18)
     pub answers: Vec<(Option<String>, String)>,
@@ -133,6 +147,7 @@ pub struct Session<'a> {
     stop_pending: bool,
     /// C14: hostile `go` lines need not be answered; only liveness is judged
     pub lenient: bool,
+    book_since_go: bool,
     bin: &'a str,
 }
 
@@ -143,11 +158,12 @@ impl<'a> Session<'a> {
             eng,
             cur: Pos::start(),
             gos: VecDeque::new(),
-            out: Outcome { violation: None, inconclusive: None, gos: 0, bestmoves: 0, book_answers: 0, readyok_while_searching: 0, state_checks: 0, log_tail: vec![], answers: vec![] },
+            out: Outcome { violation: None, inconclusive: None, gos: 0, bestmoves: 0, book_answers: 0, readyok_while_searching: 0, state_checks: 0, movetime_lower_bounds: 0, log_tail: vec![], answers: vec![] },
             last_score: None,
             info_after_stop: 0,
             stop_pending: false,
             lenient: false,
+            book_since_go: false,
             bin,
         })
     }
@@ -174,12 +190,26 @@ impl<'a> Session<'a> {
                 let p = self.gos[idx].pos.fen();
                 self.fail("illegal-bestmove", format!("'{}' is not a legal move (in coordinate notation) of {} (go {})", l, p, self.gos[idx].spec));
             }
+            // "when ... the time is up": a pure movetime search that was not ended by a later command, was not
+            // answered from the book and reports no mate must not answer before its time (a lower bound on
+            // elapsed wall time is robust under load: load only delays)
+            if let Some(ms) = pure_movetime(&self.gos[idx].spec) {
+                let early = self.gos[idx].sent.elapsed().as_millis() as u64 + 120 < ms;
+                let mate = self.last_score.as_ref().and_then(|l| l.split_whitespace().nth(3).and_then(|v| v.parse::<f64>().ok())).map(|v| v.abs() >= 10_000.0).unwrap_or(false);
+                if early && !self.gos[idx].terminated && !self.book_since_go && !mate && ms >= 300 && !self.lenient {
+                    let msg = format!("go movetime {} on {} was answered after {} ms although no later command ended it, the book was not used and no mate was reported", ms, self.gos[idx].pos.fen(), self.gos[idx].sent.elapsed().as_millis());
+                    self.fail("bestmove-before-time", msg);
+                }
+                self.out.movetime_lower_bounds += 1;
+            }
+            self.book_since_go = false;
             self.gos[idx].answered = true;
             self.out.answers.push((self.last_score.take(), mv));
             self.stop_pending = false;
             self.info_after_stop = 0;
         } else if l.starts_with("info string book move") {
             self.out.book_answers += 1;
+            self.book_since_go = true;
         } else if l.starts_with("info score") {
             self.last_score = Some(l.to_string());
         } else if l.starts_with("info time") && self.stop_pending {
@@ -311,11 +341,17 @@ impl<'a> Session<'a> {
             }
             Cmd::IsReady => self.sync(false),
             Cmd::NewGame => {
+                for g in self.gos.iter_mut() {
+                    g.terminated = true;
+                }
                 self.eng.send("ucinewgame");
                 self.stop_pending = self.gos.iter().any(|g| !g.answered);
                 self.sync(true)
             }
             Cmd::Position { fen, moves } => {
+                for g in self.gos.iter_mut() {
+                    g.terminated = true;
+                }
                 self.eng.send(&cmd_text(c));
                 self.stop_pending = self.gos.iter().any(|g| !g.answered);
                 let mut p = match fen {
@@ -332,9 +368,12 @@ impl<'a> Session<'a> {
             Cmd::Go { spec, wait } => {
                 // a new go ends the previous search first
                 let had_running = self.gos.iter().any(|g| !g.answered);
+                for g in self.gos.iter_mut() {
+                    g.terminated = true;
+                }
                 self.eng.send(&format!("go {}", spec).trim_end().to_string());
                 self.out.gos += 1;
-                self.gos.push_back(Go { pos: self.cur.clone(), answered: false, spec: spec.clone() });
+                self.gos.push_back(Go { pos: self.cur.clone(), answered: false, spec: spec.clone(), sent: std::time::Instant::now(), terminated: false });
                 if had_running {
                     self.stop_pending = true;
                     // the earlier go must be answered before this one: check at the next readyok
@@ -366,6 +405,9 @@ impl<'a> Session<'a> {
                 }
             }
             Cmd::Stop => {
+                for g in self.gos.iter_mut() {
+                    g.terminated = true;
+                }
                 self.eng.send("stop");
                 self.stop_pending = self.gos.iter().any(|g| !g.answered);
                 self.sync(true)
@@ -424,7 +466,7 @@ impl<'a> Session<'a> {
             Cmd::ReadyDuringSearch { ms } => {
                 self.eng.send(&format!("go movetime {}", ms));
                 self.out.gos += 1;
-                self.gos.push_back(Go { pos: self.cur.clone(), answered: false, spec: format!("movetime {}", ms) });
+                self.gos.push_back(Go { pos: self.cur.clone(), answered: false, spec: format!("movetime {}", ms), sent: std::time::Instant::now(), terminated: false });
                 let before = self.out.bestmoves;
                 let book_before = self.out.book_answers;
                 if !self.sync(false) {
@@ -443,6 +485,9 @@ impl<'a> Session<'a> {
                 self.wait_bestmove()
             }
             Cmd::Quit | Cmd::Eof => {
+                for g in self.gos.iter_mut() {
+                    g.terminated = true;
+                }
                 if *c == Cmd::Quit {
                     self.eng.send("quit");
                 } else {
@@ -660,6 +705,99 @@ pub fn ready_session(rng: &mut gen::R) -> Vec<Cmd> {
     vec![Cmd::Uci, Cmd::Position { fen: Some(roots.choose(rng).unwrap().to_string()), moves: vec![] }, Cmd::ReadyDuringSearch { ms: 2500 }, Cmd::Quit]
 }
 
+/// a timer of an earlier go must not end a later search: the later `go movetime` must use its whole time
+pub fn stale_timer_session(rng: &mut gen::R) -> Vec<Cmd> {
+    let roots = [
+        "r1bq1rk1/pp2bppp/2n1pn2/2pp4/3P1B2/2PBPN2/PP1N1PPP/R2QK2R w KQ - 2 8",
+        "r2q1rk1/1b2bppp/p1n1pn2/1pp5/3P4/1BN1PN2/PP2QPPP/R1BR2K1 w - - 0 13",
+        "r1b2rk1/2q1bppp/p1n1pn2/1p6/3NP3/1BN1B3/PPP1Q1PP/R4RK1 w - - 2 14",
+    ];
+    let mut s = vec![Cmd::Uci, Cmd::Position { fen: Some(roots.choose(rng).unwrap().to_string()), moves: vec![] }];
+    if rng.gen_bool(0.5) {
+        // default 4 s timer of a depth-limited go that answered at once
+        s.push(Cmd::Go { spec: format!("depth {}", rng.gen_range(1..=2)), wait: true });
+        s.push(Cmd::Sleep(rng.gen_range(1500..2600)));
+        s.push(Cmd::Go { spec: "movetime 3000".into(), wait: true });
+    } else {
+        // timer of a stopped movetime search
+        s.push(Cmd::Go { spec: "movetime 1500".into(), wait: false });
+        s.push(Cmd::Sleep(rng.gen_range(400..900)));
+        s.push(Cmd::Stop);
+        s.push(Cmd::Go { spec: "movetime 2400".into(), wait: true });
+    }
+    s.push(Cmd::Quit);
+    s
+}
+
+/// Adaptive: search A until its time is up, then search B = A without the man the answer moved.
+/// Whatever is carried over from A's search must not surface as an illegal bestmove in B.
+pub fn related_session(bin: &str, rng: &mut gen::R, corpus: &[Pos], rep: &mut Report) {
+    let a = loop {
+        let p = random_fen_root(rng, corpus);
+        if !p.legal_moves().is_empty() && p.men() >= 4 {
+            break p;
+        }
+    };
+    let Ok(mut sess) = Session::new(bin, &[]) else { return };
+    let mut script = vec![Cmd::Position { fen: Some(a.fen()), moves: vec![] }];
+    // ended by its own timer, by stop, or by the following position command
+    let how = rng.gen_range(0..3);
+    match how {
+        0 => script.push(Cmd::Go { spec: format!("movetime {}", rng.gen_range(60..250)), wait: true }),
+        1 => {
+            script.push(Cmd::Go { spec: String::new(), wait: false });
+            script.push(Cmd::Sleep(rng.gen_range(30..250)));
+            script.push(Cmd::Stop);
+        }
+        _ => {
+            script.push(Cmd::Go { spec: "movetime 2000".into(), wait: false });
+            script.push(Cmd::Sleep(rng.gen_range(30..250)));
+            script.push(Cmd::IsReady);
+            script.push(Cmd::Stop);
+        }
+    }
+    for c in script.iter() {
+        if !sess.step(c) || sess.out.violation.is_some() || sess.out.inconclusive.is_some() {
+            break;
+        }
+    }
+    let mut b = None;
+    if sess.out.violation.is_none() && sess.out.inconclusive.is_none() {
+        if let Some((_, mv)) = sess.out.answers.last() {
+            if let Some(m) = a.legal_moves().into_iter().find(|o| Pos::lan(o) == *mv) {
+                let mut q = a.clone();
+                q.ep = None;
+                let victim = if a.b[m.from as usize].abs() != 6 { Some(m.from) } else if m.capture.is_some() && !m.ep { Some(m.to) } else { None };
+                if let Some(v) = victim {
+                    q.b[v as usize] = 0;
+                    for (bit, ksq, rsq, k, r) in [(WK, 4usize, 7usize, 6i8, 4i8), (WQ, 4, 0, 6, 4), (BK, 60, 63, -6, -4), (BQ, 60, 56, -6, -4)] {
+                        if q.castle & bit != 0 && (q.b[ksq] != k || q.b[rsq] != r) {
+                            q.castle &= !bit;
+                        }
+                    }
+                    if q.is_legal_position() && !q.legal_moves().is_empty() && tame(&q) {
+                        b = Some(q);
+                    }
+                }
+            }
+        }
+    }
+    if let Some(q) = b {
+        let tail = vec![Cmd::Position { fen: Some(q.fen()), moves: vec![] }, Cmd::Go { spec: format!("depth {}", rng.gen_range(1..=3)), wait: true }, Cmd::Quit];
+        for c in tail.iter() {
+            script.push(c.clone());
+            if !sess.step(c) || sess.out.violation.is_some() || sess.out.inconclusive.is_some() {
+                break;
+            }
+        }
+        rep.count("related_position_sessions", 1);
+    }
+    sess.out.log_tail = sess.eng.tail(40);
+    sess.eng.kill();
+    let out = sess.out;
+    judge(&script, &out, "", rep);
+}
+
 pub fn judge(script: &[Cmd], out: &Outcome, kind_prefix: &str, rep: &mut Report) -> bool {
     rep.eval(1);
     rep.count("sessions", 1);
@@ -668,6 +806,7 @@ pub fn judge(script: &[Cmd], out: &Outcome, kind_prefix: &str, rep: &mut Report)
     rep.count("book_answers", out.book_answers);
     rep.count("readyok_while_searching", out.readyok_while_searching);
     rep.count("position_tracking_checks", out.state_checks);
+    rep.count("movetime_answers_checked_against_their_time", out.movetime_lower_bounds);
     rep.count("commands", script.len() as u64);
     let text: Vec<String> = script.iter().map(cmd_text).collect();
     if let Some((kind, msg)) = &out.violation {
@@ -720,7 +859,19 @@ pub fn run(ctx: &Ctx, rep: &mut Report) {
     let mut k = 0;
     while n > 0 && ctx.time_left() {
         k += 1;
-        let script = if k % 12 == 1 { ready_session(&mut rng) } else { make_session(&mut rng, &corpus) };
+        if k % 4 == 3 {
+            related_session(&bin, &mut rng, &corpus, rep);
+            n -= 1;
+            continue;
+        }
+        let script = if k % 12 == 1 {
+            ready_session(&mut rng)
+        } else if k % 12 == 6 {
+            rep.count("stale_timer_sessions", 1);
+            stale_timer_session(&mut rng)
+        } else {
+            make_session(&mut rng, &corpus)
+        };
         let s = match Session::new(&bin, &wrapper) {
             Ok(s) => s,
             Err(e) => {
